@@ -77,6 +77,9 @@ struct PhaseResult {
     fs: u64,
     result_of_op: String,
     open_requests: BTreeSet<String>,
+    /// The second crash fell between a CA's object set being written and
+    /// the command that caused it being stored.
+    second_in_window: bool,
 }
 
 fn in_fresh_thread<T: Send + 'static>(
@@ -883,7 +886,7 @@ pub fn run_pair_only(
         });
         in_fresh_thread(move || run_phase(
             seed, &base, &snap_dir, &live_dir, &snap, &target,
-            FaultMode::None, fs_only, true, c09_twin
+            FaultMode::None, fs_only, true, c09_twin, None
         ))
     };
     let twin = match twin {
@@ -966,6 +969,9 @@ pub fn run_pair_only(
     if profile.c09_mode {
         variants = vec!["crash"];
     }
+    // A crash followed by a second crash during start-up or during the
+    // background work right after it.
+    variants.push("crash2");
     let c09_baseline: Option<BTreeSet<String>> = profile.c09_mode.then(|| {
         snap.open_requests.union(&twin.open_requests).cloned().collect()
     });
@@ -979,8 +985,29 @@ pub fn run_pair_only(
             if let Some((_, v)) = &only {
                 if v != variant { continue }
             }
+            let mut second = None;
             let mode = match *variant {
                 "crash" => FaultMode::CrashAt(k),
+                "crash2" => {
+                    // At half of the cut points; a function of seed
+                    // and k only, so that a replay of one cut point
+                    // makes the same choice.
+                    let mut second_rng = Rng::new(seed)
+                        .fork(&format!("second-crash-{k}"));
+                    // Half of them early (the start-up path itself
+                    // makes only a handful of mutations).
+                    let j = if second_rng.chance(1, 2) {
+                        1 + second_rng.below(5)
+                    }
+                    else {
+                        1 + second_rng.below(
+                            if profile.fs_only { 12 } else { 40 }
+                        )
+                    };
+                    if second_rng.chance(1, 2) { continue }
+                    second = Some(j);
+                    FaultMode::CrashAt(k)
+                }
                 "fail" => FaultMode::FailAt(k),
                 "full" => {
                     // Only at a sample of the cut points, and only where
@@ -1005,7 +1032,7 @@ pub fn run_pair_only(
             let c09 = c09_baseline.clone();
             let res = in_fresh_thread(move || run_phase(
                 seed, &base2, &snap_dir2, &live_dir2, &snap2, &target2,
-                mode2, fs_only, false, c09
+                mode2, fs_only, false, c09, second
             ));
             let res = match res {
                 Ok(res) => res,
@@ -1024,6 +1051,11 @@ pub fn run_pair_only(
             *report.fired.entry(variant.to_string()).or_insert(0) += 1;
             report.kv_mutations += res.kv;
             report.fs_mutations += res.fs;
+            for (name, n) in res.stats.iter() {
+                if name.starts_with("second_crash.") {
+                    *report.stats.entry(name.clone()).or_insert(0) += n;
+                }
+            }
             let site_class = classify_site(&site);
             sites_seen.insert(format!("{}|{}|{}", target.kind(), site_class, variant));
             match &res.fired_at {
@@ -1045,7 +1077,8 @@ pub fn run_pair_only(
                     continue
                 }
             }
-            let in_window = in_presave_window(&twin.sites, k as usize);
+            let in_window = in_presave_window(&twin.sites, k as usize)
+                || res.second_in_window;
             for mut v in res.violations {
                 if v.rule == "repo_sync_not_done_uncommitted" {
                     if in_window {
@@ -1066,7 +1099,10 @@ pub fn run_pair_only(
                     v.rule = "object_set_ahead_of_command".to_string();
                 }
                 v.detail = format!(
-                    "{variant} at mutation {k}/{n} [{site}] during {}: {}",
+                    "{variant} at mutation {k}/{n} [{site}]{} during {}: {}",
+                    second.map(|j| format!(
+                        " and again before mutation {j} after the restart"
+                    )).unwrap_or_default(),
                     target.kind(), v.detail
                 );
                 v.step = k as usize;
@@ -1302,7 +1338,7 @@ fn first_diff(a: &Value, b: &Value, path: &str) -> Option<String> {
 fn run_phase(
     seed: u64, base: &Path, snap_dir: &Path, live_dir: &Path,
     snap: &SimSnapshot, target: &Op, mode: FaultMode, fs_only: bool,
-    is_twin: bool, c09: Option<BTreeSet<String>>,
+    is_twin: bool, c09: Option<BTreeSet<String>>, second: Option<u64>,
 ) -> PhaseResult {
     let mut out = PhaseResult {
         violations: Vec::new(),
@@ -1316,6 +1352,7 @@ fn run_phase(
         fs: 0,
         result_of_op: String::new(),
         open_requests: BTreeSet::new(),
+        second_in_window: false,
     };
     if let Err(err) = restore_dir(snap_dir, live_dir) {
         out.harness_error = Some(err);
@@ -1387,6 +1424,11 @@ fn run_phase(
             hooks::log(format!("died: {dead}"));
         }
         r.world.insts[0].stop();
+        if let (Some(j), true) = (second, crashed) {
+            // A second crash: before the j-th mutation of the start-up
+            // and of the background work that follows it.
+            out.second_in_window = second_crash(&mut r, j, fs_only);
+        }
         match guarded(|| r.world.insts[0].start()) {
             Guarded::Ok(Ok(())) => { }
             other => {
@@ -1508,6 +1550,70 @@ fn run_phase(
 }
 
 
+/// The instance is down after a first crash: start it with a crash armed
+/// before the j-th mutation of the start-up path and of the first round of
+/// background work. Leaves the instance stopped (the caller starts it).
+fn second_crash(r: &mut Runner, j: u64, fs_only: bool) -> bool {
+    {
+        let mut st = hooks::state();
+        st.fault = FaultPlan {
+            mode: FaultMode::CrashAt(j),
+            scope: if fs_only { FaultScope::FsOnly } else { FaultScope::All },
+            instance: None,
+            counter: 0,
+            fired_at: None,
+            record: true,
+            sites: Vec::new(),
+        };
+    }
+    r.dead = None;
+    let started = guarded(|| r.world.insts[0].start());
+    let mut where_ = "not reached";
+    match started {
+        Guarded::Ok(Ok(())) => {
+            let res = r.exec_pump();
+            hooks::log(format!("second crash stage pump {res}"));
+            if matches!(r.dead.as_deref(), Some("crash")) {
+                where_ = "background work after start-up";
+            }
+        }
+        Guarded::Crash => { where_ = "start-up"; }
+        Guarded::Fatal(_) if hooks::state().fault.fired_at.is_some() => {
+            where_ = "start-up";
+        }
+        other => {
+            r.violation(
+                "C08", "restart_fails",
+                format!("second start (crash armed at {j}): {other:?}")
+            );
+        }
+    }
+    let (fired, in_window) = {
+        let mut st = hooks::state();
+        let fired = st.fault.fired_at.clone();
+        let in_window = fired.is_some()
+            && in_presave_window(&st.fault.sites, st.fault.sites.len());
+        st.fault = FaultPlan::default();
+        (fired, in_window)
+    };
+    match (&fired, where_) {
+        (Some(at), w) => {
+            hooks::log(format!("second crash at {j} [{at}] in {w}"));
+            r.stat(&format!("second_crash.{}", w.replace(' ', "_")));
+        }
+        (None, _) => {
+            r.stat("second_crash.not_reached");
+        }
+    }
+    if r.dead.as_deref().map(|d| d != "crash").unwrap_or(false) {
+        // A violation (exit, panic) was recorded by the runner.
+        hooks::log(format!("second crash stage died: {:?}", r.dead));
+    }
+    r.dead = None;
+    r.world.insts[0].stop();
+    in_window
+}
+
 fn debug_phase(r: &Runner, what: &str, result_of_op: &str) {
     if std::env::var_os("VERIF_DEBUG").is_some() {
         eprintln!("--- phase {what}: op result {}", result_of_op);
@@ -1522,6 +1628,7 @@ fn debug_phase(r: &Runner, what: &str, result_of_op: &str) {
         }
         for line in hooks::state().trace.iter().filter(|l| {
             full || l.starts_with("recover") || l.starts_with("died")
+                || l.starts_with("second")
                 || l.starts_with("op ") || l.starts_with("fault")
         }) {
             eprintln!("    {line}");
